@@ -78,6 +78,7 @@ def lower(v):
 # ---------------------------------------------------------------------------
 # hook tables filled by theory modules
 
+ALWAYS_INSTANTIATE = []  # generators c -> [closed facts about the string literal c]
 TRUTHY_HOOKS = []       # f(ex, v) -> bool|BoolRef|None
 EQ_HOOKS = []           # f(ex, a, b) -> bool|BoolRef|None
 METHOD_HOOKS = []       # f(ex, recv, name, args, kwargs) -> value | NotImplemented
@@ -319,6 +320,12 @@ def contains(ex, container, item):
         return z3.Contains(term(container, STR), term(item, STR))
     if is_sym(container) and container.ty.kind == "seq":
         return z3.Contains(container.t, z3.Unit(term(item, container.ty.inner)))
+    if is_sym(container) and container.ty.kind == "opt":
+        if ex.branch(container.ty.is_none(container.t), "isnone"):
+            ex.raise_(TypeError, "argument of type 'NoneType' is not iterable", tag="none-in")
+        return contains(ex, _wrap_field(container.ty.inner, container.ty.val(container.t)), item)
+    if container is None:
+        ex.raise_(TypeError, "argument of type 'NoneType' is not iterable", tag="none-in")
     if isinstance(container, HObj):
         owner, raw = ex.class_attr(container.cls, "__contains__")
         clo = ex.wrap_real(raw, owner) if raw is not None else None
